@@ -76,6 +76,11 @@ impl DeweyVersion {
      * Create a new [`DeweyVersion`] from a string.
      */
     pub fn new(s: &str) -> Self {
+        /*
+         * pkg_install matches modifiers, "nb" and letters case-insensitively.
+         * ASCII lowercasing does not change any byte offsets.
+         */
+        let s = &s.to_ascii_lowercase();
         let mut version: Vec<i64> = vec![];
         let mut pkgrevision = 0;
         let mut idx = 0;
